@@ -225,6 +225,10 @@ def _pool_eval(args):
     seed, lo, hi, tier, deadline = args
     outs = []
     for index in range(lo, hi):
+        crash = os.environ.get("VERIF_TEST_CRASH_ONCE")  # self-test of the pool-restart path
+        if crash and index == 7 and not os.path.exists(crash):
+            open(crash, "w").close()
+            os.kill(os.getpid(), 11)
         if time.time() > deadline:
             outs.append({"index": index, "skipped": True})
             continue
@@ -254,13 +258,28 @@ def run_batch(prop_mod, seed, tier, n_cases, budget_s, procs=None, extra_evidenc
     harness_errors = []
     ctxm = multiprocessing.get_context("fork")
     name = prop_mod.__name__.split(".")[-1]
-    with ProcessPoolExecutor(max_workers=procs, mp_context=ctxm, initializer=_pool_init, initargs=(name,)) as ex:
-        futs = [ex.submit(_pool_eval, j) for j in jobs]
-        for fu in as_completed(futs):
-            try:
-                results.extend(fu.result())
-            except Exception as e:  # BrokenProcessPool etc.
-                harness_errors.append(f"pool failure: {e!r}")
+    pending = jobs
+    pool_crashes = 0
+    for attempt in range(4):
+        if not pending:
+            break
+        failed = []
+        with ProcessPoolExecutor(max_workers=procs, mp_context=ctxm, initializer=_pool_init, initargs=(name,)) as ex:
+            futs = {ex.submit(_pool_eval, j): j for j in pending}
+            for fu in as_completed(futs):
+                try:
+                    results.extend(fu.result())
+                except Exception as e:  # BrokenProcessPool: a worker process died (e.g. SIGSEGV in an extension)
+                    failed.append((futs[fu], repr(e)))
+        if failed:
+            pool_crashes += 1
+        # retry what did not complete, in single-case jobs so that one crashing case cannot take others with it
+        pending = []
+        for (seed_, lo, hi, tier_, dl), err in failed:
+            if attempt == 3:
+                harness_errors.append(f"pool failure for cases {lo}..{hi - 1} after 4 attempts: {err}")
+            else:
+                pending.extend((seed_, i, i + 1, tier_, dl) for i in range(lo, hi))
     results.sort(key=lambda r: r["index"])
     for r in results:
         if r.get("harness_error"):
@@ -303,6 +322,8 @@ def run_batch(prop_mod, seed, tier, n_cases, budget_s, procs=None, extra_evidenc
     for fid, (e, n) in sorted(known_hits.items()):
         print(f"KNOWN-FINDING: property={prop_mod.ID} {e['what']} [{fid}; seen in {n} cases]", flush=True)
 
+    extra_evidence = dict(extra_evidence or {})
+    extra_evidence["worker_pool_restarts_after_process_death"] = pool_crashes
     ev = build_evidence(prop_mod, seed, tier, judged, skipped, harness_errors, known_hits, reported, time.time() - t0, procs, extra_evidence)
     os.makedirs(EVIDENCE, exist_ok=True)
     with open(os.path.join(EVIDENCE, f"{prop_mod.ID}.json"), "w") as f:
@@ -329,7 +350,10 @@ def build_evidence(prop_mod, seed, tier, judged, skipped, harness_errors, known_
         if r["discard"]:
             discards[r["discard"]] = discards.get(r["discard"], 0) + 1
             continue
-        if r.get("key") is not None:
+        if isinstance(r.get("key"), dict) and "multi" in r["key"]:
+            for k in r["key"]["multi"]:
+                keys.add(json.dumps(k, sort_keys=True))
+        elif r.get("key") is not None:
             keys.add(json.dumps(r["key"], sort_keys=True))
         digests.update(r.get("digests", ()))
         abstract.update(r.get("abstract", ()))
